@@ -22,6 +22,82 @@ META = ("W-TYPES / W-FAIL (return types and extents of span::first/last/subspan/
 SPAN = "etl::span"
 
 
+def ctrsized_rule(chk, db):
+    """CTRSIZED: an mdarray built from a mapping owns `required_span_size()` elements. Its constructors size the container in a
+    lambda: `if constexpr (is_constructible_v<Container, size_t ...>) return container_type(size ...); else return <fixed-size
+    form>;`. The unsized return is reached only when the container cannot be given a size: every condition that must be FALSE
+    to get there is the single atom `is_constructible_v<Container, size_t...>`; a conjunction (`rank() > 0 and ...`) lets a
+    resizable container of a rank-0 array stay empty although the mapping addresses one element."""
+    from ..rules import extra10 as _X10
+    n = 0
+    for f in db.funcs:
+        if not (f.get("record") or "").startswith("etl::mdarray") or f["n"] != "<ctor>":
+            continue
+        for it in f.get("inits") or []:
+            lams = [y for y in astx.walk_expr(it.get("e") or {}, into_lambdas=False) if y.get("k") == "lambda"] if it.get("e") else []
+            for lam in lams:
+                if lam.get("body") is None:
+                    continue
+                sized = [r for r, conds in _X10.guarded_nodes({"body": lam["body"]}, lambda x: x.get("k") == "return")
+                         if any(y.get("k") == "call" and astx.callee(y)[0] == "required_span_size" for y in astx.walk_expr(r.get("e") or {}))]
+                if not sized:
+                    continue
+                n += 1
+                construct = astx.sig(f)
+                chk.instance("CTRSIZED")
+                bad = unknown = None
+                for r, conds in _X10.guarded_nodes({"body": lam["body"]}, lambda x: x.get("k") == "return"):
+                    if r in sized:
+                        continue
+                    neg = _X10.negative_conditions(conds)
+                    if not neg:
+                        unknown = "an unsized return is not in the else-branch of a test"
+                        continue
+                    for c in neg:
+                        if re.search(r"\band\b|&&|\bor\b|\|\|", c) and "constructible" in c:
+                            bad = (r, c)
+                        elif "constructible" not in c:
+                            unknown = "the test `%s` is not a constructibility test" % c
+                chk.obligation("CTRSIZED", construct, False if bad else (None if unknown else True))
+                if bad:
+                    chk.violation("CTRSIZED", construct, "container-left-unsized", "%s: `return %s` is reached whenever `%s` is false: that includes "
+                                  "containers that can be given a size, which then stay default-constructed although the mapping's "
+                                  "required_span_size() elements are addressed (rank 0: one element)" % (
+                                      astx.loc(f, bad[0]), astx.show(bad[0].get("e"), 30), bad[1]), {"where": astx.loc(f)})
+                elif unknown:
+                    chk.unknown_instance("CTRSIZED", construct, unknown)
+    return n
+
+
+def subempty_rule(chk, db):
+    """SUBEMPTY: first / last / subspan return a view *into* the span even when it is empty: `last(0)` is the empty range at
+    `data() + size()`, not a default-constructed span (`data() == nullptr`): iterators of the result compare with those of the
+    source, and `subspan(size(), 0)`, `last(0)`, `first(0)` are the positions algorithms split ranges at. Every return of these
+    members is a construction with arguments."""
+    n = 0
+    for f in db.funcs_of_record(SPAN):
+        if f["n"] not in ("first", "last", "subspan") or f.get("body") is None:
+            continue
+        n += 1
+        construct = astx.sig(f)
+        chk.instance("SUBEMPTY")
+        bad = None
+        for st in astx.walk_stmts(f["body"]):
+            if st.get("k") != "return" or st.get("e") is None:
+                continue
+            e = astx.strip_casts(st["e"])
+            if e is not None and e.get("k") in ("initlist", "construct") and not [a for a in e.get("a", []) if a is not None]:
+                bad = st
+        chk.obligation("SUBEMPTY", construct, bad is None)
+        if bad is not None:
+            chk.violation("SUBEMPTY", construct, "detached-empty-view", "%s: `return %s` hands out a default-constructed span (data() == nullptr) "
+                          "instead of the empty view at the requested position inside the source" % (astx.loc(f, bad), astx.show(bad.get("e"), 20)),
+                          {"where": astx.loc(f)})
+    if n < 3:
+        chk.analysis_broken("SUBEMPTY: fewer than 3 sub-view members of span found (floor 3)")
+    return n
+
+
 def sub_rule(chk, db, table):
     """first/last/subspan: the constructed (pointer, count) stays inside the span"""
     n = 0
@@ -840,6 +916,12 @@ META = (META[0] + ' SIZESRC (size() of mdarray / mdspan is computed from the ext
 META = (META[0] + ' PATIDX (extents::_dynamic_index evaluated from its source for every static/dynamic pattern of rank 1-4).', META[1])
 
 
+META = (META[0] + ' SUBEMPTY (first / last / subspan never return a default-constructed span: an empty sub-view still points into the source).', META[1])
+
+
+META = (META[0] + ' CTRSIZED (an mdarray constructor leaves its container unsized only when the container cannot be constructed from a size).', META[1])
+
+
 def run(chk, tier):
     db = D.load("checks")
     from ..rules import params as _PR
@@ -851,6 +933,9 @@ def run(chk, tier):
     with open(c05.SPEC) as fh:
         table = json.load(fh)["entries"]
     sub_rule(chk, plain, table)
+    subempty_rule(chk, db)
+    if ctrsized_rule(chk, db) < 2:
+        chk.analysis_broken("CTRSIZED: fewer than 2 mdarray constructors that size their container from the mapping (floor 2)")
     mirror_rule(chk, db)
     guard_rule(chk, db)
     dynslot_rule(chk, db)
